@@ -12,6 +12,7 @@ import (
 	kerrors "k8s.io/apimachinery/pkg/api/errors"
 	metav1 "k8s.io/apimachinery/pkg/apis/meta/v1"
 	"k8s.io/apimachinery/pkg/apis/meta/v1/unstructured"
+	"k8s.io/apimachinery/pkg/runtime"
 	"k8s.io/apimachinery/pkg/runtime/schema"
 	"k8s.io/apimachinery/pkg/types"
 	"k8s.io/apimachinery/pkg/util/validation/field"
@@ -20,6 +21,7 @@ import (
 	sigyaml "sigs.k8s.io/yaml"
 
 	pkgv1 "github.com/crossplane/crossplane/apis/pkg/v1"
+	"github.com/crossplane/crossplane/internal/xpkg"
 
 	"github.com/crossplane/crossplane/verifsim/kit"
 	"github.com/crossplane/crossplane/verifsim/runner"
@@ -41,6 +43,7 @@ type Pkg struct {
 type Mode struct {
 	C15 bool
 	C16 bool
+	C02 bool
 }
 
 var objPool = []string{"alpha", "beta", "gamma"}
@@ -111,6 +114,7 @@ type run struct {
 	rejectName string // creates of this object name are rejected by the API server
 	foreign    map[string]bool
 	instances  int
+	guard      map[simapi.ObjKey]string
 }
 
 // Run is the generic W-pkg run for C15 / C16.
@@ -147,8 +151,11 @@ func Run(s *sim.Sim, res *runner.Result, mode Mode) {
 		}
 	}
 	res.Workload = wl
-	if mode.C16 {
+	if mode.C16 || mode.C02 {
 		r.setupC16(t)
+	}
+	if mode.C02 {
+		r.setupC02(t)
 	}
 	for _, p := range r.pkgs {
 		p := p
@@ -208,6 +215,9 @@ func Run(s *sim.Sim, res *runner.Result, mode Mode) {
 		}
 		if mode.C16 {
 			r.observeC16()
+		}
+		if mode.C02 {
+			r.observeC02()
 		}
 	}
 	s.Phase = "heal"
@@ -456,6 +466,97 @@ func (r *run) obj(kind, name string) map[string]any {
 }
 
 func (r *run) exists(kind, name string) bool { return r.obj(kind, name) != nil }
+
+// ---------------------------------------------------------------- C02
+
+// setupC02: a stranger controls the revision name the manager will derive for
+// one version, and (via setupC16) some package objects.
+func (r *run) setupC02(t *sim.Tape) {
+	ctx := context.Background()
+	w := r.w
+	r.guard = map[simapi.ObjKey]string{}
+	cm := &unstructured.Unstructured{Object: map[string]any{"apiVersion": "v1", "kind": "ConfigMap", "metadata": map[string]any{"name": "stranger", "namespace": "default"}}}
+	_ = w.Direct.Create(ctx, cm)
+	for _, p := range r.pkgs {
+		if t.Next(2) == 0 {
+			continue
+		}
+		tag := p.Tags[t.Next(len(p.Tags))]
+		d := w.Reg.TagMap[Registry+"/"+p.Repo+":"+tag]
+		name := xpkg.FriendlyID(p.Name, d)
+		u := &unstructured.Unstructured{Object: map[string]any{"apiVersion": "pkg.crossplane.io/v1", "kind": RevGK[p.Kind].Kind,
+			"metadata": map[string]any{"name": name, "labels": map[string]any{"theirs": "yes"}},
+			"spec":     map[string]any{"desiredState": "Inactive", "image": "registry.example.org/other/thing:v9", "revision": int64(7)}}}
+		u.SetOwnerReferences(ownerRefs("v1", "ConfigMap", "stranger", "stranger-uid", true))
+		if w.Direct.Create(ctx, u) == nil {
+			k := simapi.ObjKey{Group: RevGK[p.Kind].Group, Kind: RevGK[p.Kind].Kind, Name: name}
+			r.guard[k] = simapi.Digest(w.Store.Peek(k))
+			w.S.Probe("placed/package-revision-name")
+		}
+	}
+	for k := range r.foreign {
+		parts := strings.SplitN(k, "/", 2)
+		ok := simapi.ObjKey{Group: kindGroup[parts[0]], Kind: parts[0], Name: parts[1]}
+		if m := w.Store.Peek(ok); m != nil {
+			r.guard[ok] = simapi.Digest(m)
+			w.S.Probe("placed/package-object")
+		}
+	}
+	w.Store.OnLog = append(w.Store.OnLog, func(e *simapi.LogEntry) {
+		if e.Read || e.Injected != "" || e.DryRun || e.Err != nil || e.Actor != "pkg" {
+			return
+		}
+		if _, ok := r.guard[e.Key]; !ok || !(e.Changed || e.Removed) {
+			return
+		}
+		if revisionKind(e.Key.Kind) {
+			// only the package manager writes a revision on behalf of an owner (the
+			// revision controller's own bookkeeping on its primary object is not
+			// an act on behalf of a package)
+			if !strings.HasPrefix(e.TaskLabel, "package/") {
+				return
+			}
+		} else if !e.Removed && maskPlainOwners(e.Before) == maskPlainOwners(e.After) {
+			// out of scope by the property's own words: the plain (non-controller)
+			// owner reference an inactive package revision adds
+			w.S.Probe("inactive-revision-added-plain-owner-to-foreign-object")
+			r.guard[e.Key] = simapi.Digest(e.After)
+			return
+		}
+		w.S.Violate("C02/write-committed-on-foreign-object/"+e.Key.Kind, fmt.Sprintf("%s committed %s on %s %s, which another owner controls", e.TaskLabel, e.Verb, e.Key.Kind, e.Key.Name))
+	})
+}
+
+// maskPlainOwners digests an object without its non-controller owner references.
+func maskPlainOwners(m map[string]any) string {
+	if m == nil {
+		return ""
+	}
+	c := runtime.DeepCopyJSON(m)
+	u := &unstructured.Unstructured{Object: c}
+	var keep []metav1.OwnerReference
+	for _, o := range u.GetOwnerReferences() {
+		if o.Controller != nil && *o.Controller {
+			keep = append(keep, o)
+		}
+	}
+	u.SetOwnerReferences(keep)
+	return simapi.Digest(c)
+}
+
+func (r *run) observeC02() {
+	for k, d := range r.guard {
+		if revisionKind(k.Kind) {
+			continue // judged on the manager's writes only
+		}
+		m := r.w.Store.Peek(k)
+		if m == nil {
+			r.w.S.Violate("C02/foreign-object-deleted/"+k.Kind, fmt.Sprintf("%s %s, controlled by another owner, was deleted", k.Kind, k.Name))
+		} else if simapi.Digest(m) != d {
+			r.w.S.Violate("C02/foreign-object-modified/"+k.Kind, fmt.Sprintf("%s %s, controlled by another owner, was modified", k.Kind, k.Name))
+		}
+	}
+}
 
 // ---------------------------------------------------------------- C16
 
